@@ -24,6 +24,9 @@ def stages(tier, rng, only=None):
     n_rand = 600 if tier == "quick" else 6000
     out.append(ac.stage("random", PID, lambda: ac.cases([ac.random_dataset(rng, 7, 6) for _ in range(n_rand)],
                                                         ["PickAPerm"], SCHEMES + ac.grid_sample(rng, 10)), _nt))
+    out.append(ac.stage("reuse_after_mutation", PID, lambda: ac.reuse_mutate_cases(
+        grids.datasets(3, 2) + [ac.random_dataset(rng, 6, 5, nmin=2) for _ in range(n_rand // 2)], ["PickAPerm"],
+        SCHEMES, rng, flags=(1, 0)), _nt))
     if tier == "thorough":
         out.append(ac.stage("grid3x3", PID, lambda: ac.cases(grids.datasets(3, 3), ["PickAPerm"], SCHEMES), _nt))
         out.append(ac.stage("grid4x2", PID, lambda: ac.cases(grids.datasets(4, 2), ["PickAPerm"], SCHEMES), _nt))
